@@ -9,6 +9,7 @@ per I/O operation index x fault kind x end (plus gater / resource-manager / conf
 specials), the real TCP transport's dial path, a real Swarm and two real BasicHosts.  Every run records
 the observable ledger (begin/live/end of every attempt, raw_open/raw_close, Stat() audits, goroutine
 census) and TLC validates each ledger against the observable-level spec/C04_Obs.tla."""
+import concurrent.futures
 import json
 import os
 import re
@@ -32,16 +33,21 @@ FAMILIES = [
 # (the verdict itself is TLC's: the ledger is not a behaviour of C04_Obs)
 
 def diagnose(reset, evs):
-    probs, raw, obj, stage = [], {}, {}, {}
+    probs, raw, obj, stage, rmof = [], {}, {}, {}, {}
     for e in evs:
         ev = e["ev"]
         if ev == "begin":
+            if e["o"] in obj:
+                probs.append("begin-twice:" + e["o"])
             obj[e["o"]] = "pending"
+            rmof[e["o"]] = e.get("rm")
         elif ev == "live":
             if obj.get(e["o"]) != "pending":
-                probs.append("live-twice:" + e["o"])
+                probs.append("live-not-pending:" + e["o"])
             obj[e["o"]] = "live"
         elif ev == "end":
+            if obj.get(e["o"]) not in ("pending", "live"):
+                probs.append("end-twice:" + e["o"])
             obj[e["o"]] = "ended"
             stage[e["o"]] = e.get("stage", "")
         elif ev == "raw_open":
@@ -56,18 +62,27 @@ def diagnose(reset, evs):
             if e.get("conns") or e.get("listeners"):
                 probs.append("after-close:conns=%s,listeners=%s" % (e.get("conns"), e.get("listeners")))
             for o in obj:
-                obj[o] = "ended"
+                if rmof.get(o) == e.get("rm"):
+                    obj[o] = "ended"
         elif ev == "audit":
-            holders = [o for o, s in obj.items() if s in ("pending", "live")]
-            if not holders or e.get("final"):
-                live = [o for o, s in obj.items() if s == "live"]
-                if not live:
-                    for k in USAGE_KEYS:
-                        if e.get(k):
-                            probs.append("usage:%s:%s" % (e["rm"], k))
-                    if e.get("gor"):
-                        probs.append("goroutines")
+            r = e["rm"]
+            mine = {o: s for o, s in obj.items() if rmof.get(o) == r}
+            pend = [o for o, s in mine.items() if s == "pending"]
+            live = [o for o, s in mine.items() if s == "live"]
+            if not pend and not live:
+                for k in USAGE_KEYS:
+                    if e.get(k):
+                        probs.append("usage:%s:%s" % (r, k))
+            elif not pend:
+                nl = len(live)
+                for k in ("sIn", "sOut", "cIn", "cOut", "fd"):
+                    if e.get(k, 0) > nl:
+                        probs.append("usage-above-live:%s:%s" % (r, k))
             if e.get("final"):
+                if any(s == "pending" for s in obj.values()):
+                    probs.append("pending-at-final")
+                if e.get("gor") and all(s == "ended" for s in obj.values()):
+                    probs.append("goroutines")
                 for o, s in raw.items():
                     if s != "closed" and obj.get(o) == "ended":
                         probs.append("raw-not-closed:" + o)
@@ -80,22 +95,22 @@ def class_key(reset, evs):
     fam, kind = reset.get("family", "?"), reset.get("kind", "?")
     pj = reset.get("p") or {}
     acceptor = not pj.get("no_accept", False)
-    if fam == "upgrader":
-        # genuine findings on the unchanged tree have precise keys (see known_findings.d/C04.json)
-        if probs == ["raw-not-closed:d1"] and kind == "nilpeer":
-            return "raw-conn-not-closed:upgrade-nil-peer", probs
-        if kind == "forcepnet" and probs and all(p.startswith("raw-not-closed:") for p in probs):
-            return "raw-conn-not-closed:upgrade-force-pnet-without-psk", probs
-        leak_l = {"usage:l:cIn", "usage:l:fd", "usage:l:other"}
-        if acceptor and set(probs) == leak_l and stage.get("l1") == "muxed" and pj.get("n", 1) in (0, 1) \
-                and any(e["ev"] == "raw_close" and e["o"] == "l1" for e in evs) \
-                and not any(e["ev"] == "live" and e["o"] == "l1" for e in evs):
+    # genuine findings on the unchanged tree have precise keys (see known_findings.d/C04.json)
+    if fam in ("upgrader", "tcp") and kind == "nilpeer" and probs == ["raw-not-closed:d1"]:
+        return "raw-conn-not-closed:upgrade-nil-peer", probs
+    if fam == "upgrader" and kind == "forcepnet" and probs and all(p.startswith("raw-not-closed:") for p in probs):
+        return "raw-conn-not-closed:upgrade-force-pnet-without-psk", probs
+    if fam == "tcp" and kind == "tracing-conn-error" and probs == ["raw-not-closed:d1"]:
+        return "raw-conn-not-closed:tcp-dial-tracing-conn-error", probs
+    # an inbound connection whose upgrade COMPLETED (stage muxed), that was never handed out although
+    # somebody was accepting, whose raw connection is closed, and whose scope is all that is left
+    inb = {"upgrader": ("l1", "l"), "tcp": ("l1", "l"), "host": ("cb", "b")}.get(fam)
+    if inb and acceptor and pj.get("n", 1) in (0, 1):
+        o, rm = inb
+        if set(probs) == {"usage:%s:%s" % (rm, k) for k in ("cIn", "fd", "other")} and stage.get(o) == "muxed" \
+                and any(e["ev"] == "raw_close" and e["o"] == o for e in evs) \
+                and not any(e["ev"] == "live" and e["o"] == o for e in evs):
             return "conn-scope-leak:accept-skips-closed-queued-conn", probs
-    if fam == "tcp":
-        if kind == "tracing-conn-error" and probs == ["raw-not-closed:d1"]:
-            return "raw-conn-not-closed:tcp-dial-tracing-conn-error", probs
-        if kind == "nilpeer" and probs == ["raw-not-closed:d1"]:
-            return "raw-conn-not-closed:upgrade-nil-peer", probs
     what = "+".join(re.sub(r"\d+$", "", p) for p in probs) or "ledger-rejected"
     st = reset.get("stage") or "-"
     return "%s:%s:%s@%s:%s" % (fam, what[:80], kind, st, reset.get("side", "")), probs
@@ -106,30 +121,34 @@ def class_key(reset, evs):
 def run(ctx):
     thorough = ctx.tier == "thorough"
     tlc.stage(ctx)
-    mc = design_level(ctx, thorough)
-    fam_res, traces, resets = {}, [], {}
-    for name, pkg, rx in FAMILIES:
-        if not os.path.isdir(os.path.join(goenv.HARNESS, pkg[2:])) or not any(
-                f.startswith("zz_verif_c04") for f in os.listdir(os.path.join(goenv.HARNESS, pkg[2:]))):
-            continue
-        res = goenv.run_harness(ctx, pkg, rx, timeout=1500)
-        classify_mismatches(ctx, res, name)
-        fam_res[name] = res
-        for p in res.get("traces") or []:
-            if os.path.exists(p):
-                for (tname, reset, evs) in tracecheck.load_ndjson(p):
-                    tname = name + "-" + tname
-                    reset = dict(reset, trace=tname)
-                    traces.append((tname, reset, evs))
-                    resets[tname] = (reset, evs)
-    if not traces:
-        raise MachineryError("the C04 harnesses recorded no ledgers")
-    verdicts, _ = tracecheck.validate(ctx, "C04_Obs", "C04_Obs.cfg", traces, tag="c04", timeout=900, batch=400,
-                                      max_rejections=60)
+    # TLC on the lifecycle model runs in its own process while the harnesses run (tracecheck re-points
+    # tlc's staging directory module-wide, so the two must not share a python process)
+    with concurrent.futures.ProcessPoolExecutor(max_workers=1) as pool:
+        fut = pool.submit(design_level, ctx, thorough)
+        fam_res, traces, resets = {}, [], {}
+        env = {"GOLOG_LOG_LEVEL": "error+8"}                # the code logs every injected failure at error level
+        if thorough:
+            env["VERIF_C04_SWARM_ITERS"] = 600
+        for name, pkg, rx in FAMILIES:
+            try:
+                res = goenv.run_harness(ctx, pkg, rx, timeout=1500, env=env)
+            except HarnessCrash as e:
+                res = crash_verdict(ctx, e, name, pkg, rx, env)
+            classify_mismatches(ctx, res, name)
+            fam_res[name] = res
+            for p in res.get("traces") or []:
+                if os.path.exists(p):
+                    for (tname, reset, evs) in tracecheck.load_ndjson(p):
+                        tname = name + "-" + tname
+                        reset = dict(reset, trace=tname)
+                        traces.append((tname, reset, evs))
+                        resets[tname] = (reset, evs)
+        if not traces:
+            raise MachineryError("the C04 harnesses recorded no ledgers")
+        verdicts = validate_ledgers(ctx, traces)
+        mc = fut.result()
     acc = sum(1 for v in verdicts if v.accepted)
     rej = [v for v in verdicts if not v.accepted]
-    if len(verdicts) < len(traces) and len(rej) < 60:
-        raise MachineryError("only %d of %d ledgers were validated" % (len(verdicts), len(traces)))
     classes = {}
     for v in rej:
         reset, evs = resets[v.name]
@@ -139,36 +158,41 @@ def run(ctx):
             continue
         path = save_replay(ctx, "ledger-seed%d-%s.json" % (ctx.seed, v.name), {
             "verdict": v.as_dict(), "case": reset, "left_over": probs, "events": evs,
-            "how_to_rerun": "VERIF_C04_ONLY='<cfg>|<plan json>' go test -tags verif -run %s (see harness)" % reset.get("family")})
+            "how_to_rerun": "VERIF_C04_ONLY='%s|%s' ./tools_gotest.sh <pkg> <test> (upgrader family)" % (
+                reset.get("cfg", ""), json.dumps(reset.get("p", {})))})
         ctx.violations.append({"cls": cls, "replay": path, "what": "%s: ledger %s (%s %s) is not a behaviour of C04_Obs at event %d/%d %s; left over: %s" % (
             cls, v.name, reset.get("cfg", ""), reset.get("plan", ""), v.matched, v.length,
-            json.dumps(v.next_event)[:200], ", ".join(probs) or "-")})
-    # a python/TLC disagreement about a ledger is a machinery problem, never a verdict
-    for tname, (reset, evs) in resets.items():
-        pass
+            json.dumps(v.next_event)[:160], ", ".join(probs) or "-")})
+    # TLC and the python fold must agree on which ledgers are clean (the fold only names classes)
+    for v in verdicts:
+        if v.accepted:
+            probs = diagnose(*resets[v.name])[0]
+            if probs:
+                raise MachineryError("ledger %s accepted by C04_Obs but the class fold sees %s" % (v.name, probs))
     # evidence
     evals = sum(int(r.get("extra", {}).get("evaluations", r.get("replayed", 0))) for r in fam_res.values())
     fired = sum(int(r.get("extra", {}).get("fired", 0)) for r in fam_res.values())
     distinct = sum(int(r.get("distinct", 0)) for r in fam_res.values())
     exits = sorted(set(x for r in fam_res.values() for x in r.get("extra", {}).get("exits", [])))
-    check_exits(ctx, mc, exits)
+    missing = check_exits(mc, exits)
     samples = []
     for r in fam_res.values():
         samples += (r.get("samples") or [])[:2]
     log("C04: MC %d states; %d fault runs (%d fired, %d distinct tuples); ledgers %d accepted, %d rejected %s"
         % (mc["states"], evals, fired, distinct, acc, len(rej), classes))
-    if evals < (400 if not thorough else 1500) or fired < evals // 2:
+    if evals < (700 if not thorough else 2500) or fired < evals // 2:
         raise MachineryError("vacuous run: %d evaluations, %d fired" % (evals, fired))
     cov = {
         "evaluations": evals,
         "distinct_nontrivial": distinct,
-        "rule": "; ".join("%s: %s" % (n, r.get("rule", "")) for n, r in fam_res.items()),
+        "rule": "; ".join("[%s] %s" % (n, r.get("rule", "")) for n, r in fam_res.items()),
         "samples": samples[:6] or ["(none)"],
         "states": mc["states"], "transitions": mc["transitions"], "exhaustive": False,
         "traces_validated_against_impl": acc,
-        "checker_cmd": "tlc C04_MC.tla (Released, SwarmClosed); tlc C04_Obs.tla on every recorded ledger",
+        "checker_cmd": "tlc C04_MC.tla (Released, SwarmClosed, Drained; CodeQuirks instances must violate Released); tlc C04_Obs.tla on every recorded ledger",
         "mc_instances": mc["instances"], "faults_fired": fired, "ledgers_accepted": acc, "ledgers_rejected": len(rej),
         "rejected_classes": classes, "exits_hit": exits, "model_exits": mc.get("exits"),
+        "model_exits_not_hit": missing,
         "per_family": {n: {"evaluations": r.get("extra", {}).get("evaluations", r.get("replayed")),
                            "fired": r.get("extra", {}).get("fired"), "distinct": r.get("distinct"),
                            "ops": {k[4:]: v for k, v in r.get("extra", {}).items() if k.startswith("ops/")}}
@@ -176,28 +200,168 @@ def run(ctx):
     }
     return {"level": "fault_enumeration", "coverage": cov, "assumptions": [
         "raw connections are in-memory (buffered, full-duplex, deadlines in virtual time); a fault is sticky from operation k on; one fault per run",
-        "virtual time (testing/synctest): stalls run into the code's own deadlines (accept timeout, negotiate timeout, yamux keep-alive, dial context)",
-        "usage is read with Stat() after the attempt's owner has closed what it was handed and the listener has been closed; the goroutine census is the set of goroutines of the run's bubble",
+        "virtual time (testing/synctest): stalls run into the code's own deadlines (accept timeout, negotiate timeout, yamux keep-alive, dial and NewStream contexts)",
+        "usage is read with Stat() at quiescent points; final audits are taken after the owner of every object has closed it (or the swarm/host was closed) and the listener's Close has returned; the goroutine census is the set of goroutines left in the run's bubble",
+        "swarm family: stub transport connections that own a real connection scope; host family: an in-memory TCP-shaped transport around the real upgrader",
         "QUIC / WebSocket / WebTransport / WebRTC listeners' own clean-up paths are not fault-injected",
     ]}
 
 
+def validate_ledgers(ctx, traces, batch=700):
+    """TLC validates every ledger against C04_Obs in one pass per batch: the specification consumes all
+    ledgers and records the rejected ones itself (variable `bad`, printed as VFBAD by the postcondition)."""
+    verdicts = []
+    for bi in range(0, len(traces), batch):
+        chunk = traces[bi:bi + batch]
+        hw, violated, nlines, res = tracecheck._run_batch(ctx, "C04_Obs", "C04_Obs.cfg", chunk, "c04-%d" % bi, 900, True)
+        if violated or hw != nlines + 1:
+            raise MachineryError("C04_Obs did not consume its batch (hw=%s of %d, %s):\n%s" % (hw, nlines, violated, res.out[-1500:]))
+        bad = None
+        for tag, obj in res.prints:
+            if tag == "VFBAD":
+                bad = {b["trace"]: b for b in obj["bad"]}
+        if bad is None:
+            raise MachineryError("C04_Obs printed no VFBAD line")
+        pos = 0
+        for name, _reset, evs in chunk:
+            v = tracecheck.TraceVerdict(name)
+            v.length = len(evs)
+            if name in bad:
+                v.matched = max(0, int(bad[name]["at"]) - (pos + 1) - 1)
+                v.next_event = evs[v.matched] if v.matched < len(evs) else None
+            else:
+                v.accepted, v.matched = True, len(evs)
+            verdicts.append(v)
+            pos += 1 + len(evs)
+        unknown = set(bad) - set(t[0] for t in chunk)
+        if unknown:
+            raise MachineryError("C04_Obs rejected ledgers that are not in the batch: %s" % sorted(unknown))
+    return verdicts
+
+
+INVS = "INVARIANTS TypeOK Released SwarmClosed"
+QUIRKS = ["tracing", "nilpeer", "forcepnet", "skip"]
+
+
 def design_level(ctx, thorough):
     out = {"states": 0, "transitions": 0, "instances": [], "exits": None}
-    if not os.path.exists(os.path.join(tlc.SPEC, "C04_MC.cfg")):
-        return out
+
+    def mc(x, ws, live, quirks="{}", workers=2, invs=INVS):
+        repl = [("X_", x + "_")]
+        if live:
+            repl += [("SPECIFICATION Spec", "SPECIFICATION FairSpec"), (INVS, INVS + "\nPROPERTIES Drained")]
+        elif invs != INVS:
+            repl += [(INVS, invs)]
+        cfg = tlc.subst_cfg("C04_MC.cfg", {"WithStreams": ws, "CodeQuirks": quirks}, replace=repl)
+        return tlc.run(ctx, "C04_MC", "gen_%s.cfg" % x, cfg_text=cfg, workers=workers, timeout=1500, name="mc" + x)
+
+    plan = [("A", "TRUE", True), ("B", "FALSE", False)]
+    if thorough:
+        plan = [("A", "TRUE", True), ("C", "TRUE", True), ("B", "FALSE", False), ("D", "TRUE", False)]
+    for x, ws, live in plan:
+        r = mc(x, ws, live)
+        if not r.ok:
+            raise MachineryError("design-level failure in C04 %s: %s\n%s" % (x, r.violated, r.out[-2500:]))
+        out["states"] += r.distinct
+        out["transitions"] += r.generated
+        out["instances"].append({"instance": x, "streams": ws, "liveness": live, "distinct": r.distinct,
+                                 "generated": r.generated, "wall_s": r.wall})
+        for tag, obj in r.prints:
+            if tag == "VFEXITS":
+                out["exits"] = sorted("|".join(e) for e in obj["exits"])
+    if not out["exits"]:
+        raise MachineryError("C04_MC printed no VFEXITS line")
+    # the exits the code gets wrong, modelled as they are: TLC must report Released violated (design-level
+    # image of the known findings); one run for all in quick, one per exit in thorough
+    for q in ([QUIRKS] if not thorough else [[x] for x in QUIRKS]):
+        r = mc("A", "FALSE", False, quirks="{%s}" % ", ".join('"%s"' % x for x in q))
+        out["instances"].append({"instance": "A with CodeQuirks=%s (Released expected to fail)" % q, "violated": r.violated})
+        if r.ok or r.violated != "Released":
+            raise MachineryError("CodeQuirks %s: expected Released to be violated, got %s" % (q, r.violated))
+    for probe in ("ReachQueuedDead", "ReachCloseRace", "ReachStreamReset"):
+        r = mc("A", "TRUE", False, invs="INVARIANTS " + probe)
+        if r.ok or r.violated != probe:
+            raise MachineryError("vacuity guard %s not reachable" % probe)
     return out
 
 
-def check_exits(ctx, mc, exits):
-    return
+_IO = {"err": "io", "eof": "io", "stall": "io", "cancel": "ctx", "lclose": "ctx"}
+_DIRS = {"d": ["out"], "l": ["in"]}
+
+
+def model_exit(x):
+    """Map an exit hit by a harness to the model's <<dir, stage, kind>> triples (or [] when the model has
+    no such exit because nothing is released there: faults on an established connection, stream stages)."""
+    p = x.split("|")
+    if p[0] == "tcp":
+        return {"rm-open": ["out|dial|rcmgr-open"], "rm-setpeer": ["out|dial|rcmgr-setpeer"], "dial-error": ["out|dial|dial-error"],
+                "ctx-cancelled": ["out|dial|dial-error"], "tracing-conn-error": ["out|dial|tracing"],
+                "nilpeer": ["out|entry|nilpeer"]}.get(p[1], [])
+    if p[0] == "swarm":
+        return {"handed:gater": ["in|handed|gater", "out|handed|gater"],
+                "handed:swarmclosed": ["in|handed|swarmclosed", "out|handed|swarmclosed"]}.get(p[1], [])
+    if p[0] == "host":
+        return []
+    side, stage, kind = p
+    if side == "":
+        return {"gater-accept": ["in|accept|gater"], "gater-secured-d": ["out|gated|gater"], "gater-secured-l": ["in|gated|gater"],
+                "rm-open-l": ["in|accept|rcmgr-open"], "rm-setpeer-d": ["out|setpeer|rcmgr"], "rm-setpeer-l": ["in|setpeer|rcmgr"],
+                "nilpeer": ["out|entry|nilpeer"], "forcepnet": ["in|entry|forcepnet", "out|entry|forcepnet"],
+                "badpsk": ["in|entry|badpsk", "out|entry|badpsk"], "noaccept": ["in|queued|ctx"], "threshold": ["in|queued|ctx"],
+                "hangup-queued": ["in|queued|skip"]}.get(kind, [])
+    if kind in _IO and stage in ("secneg", "handshake", "muxneg"):
+        return ["%s|%s|%s" % (d, stage, _IO[kind]) for d in _DIRS[side]]
+    if kind == "lclose" and side == "l" and stage == "muxed":
+        return ["in|queued|ctx"]
+    return []
+
+
+def check_exits(mc, exits):
+    """Every exit of the model must have been taken by at least one fault run, and no run may land on a
+    <<dir, stage, kind>> the model lacks (model and enumeration describe the same code)."""
+    if not mc.get("exits"):
+        return []
+    model = set(mc["exits"])
+    hit = set()
+    for x in exits:
+        for m in model_exit(x):
+            if m not in model:
+                raise MachineryError("the enumeration hit exit %s (%s) that C04_Lifecycle does not have" % (m, x))
+            hit.add(m)
+    missing = sorted(model - hit)
+    if missing:
+        raise MachineryError("model exits never taken by the fault enumeration: %s" % missing)
+    return missing
+
+
+_CRASH = re.compile(r"^(panic: .*|fatal error: .*)$", re.M)
+
+
+def crash_verdict(ctx, e, name, pkg, rx, env):
+    """A harness process that dies (panic inside library goroutines, fatal error): reproduce once, then it
+    is a violation of 'no goroutine started for the attempt keeps running / clean teardown' only if the
+    same signature comes back; otherwise inconclusive (machinery)."""
+    m = _CRASH.search(e.log or "")
+    if not m:
+        raise e
+    sig = re.sub(r"0x[0-9a-f]+|\d+", "N", m.group(1))[:120]
+    try:
+        return goenv.run_harness(ctx, pkg, rx, timeout=1500, env=env)
+    except HarnessCrash as e2:
+        m2 = _CRASH.search(e2.log or "")
+        if m2 and re.sub(r"0x[0-9a-f]+|\d+", "N", m2.group(1))[:120] == sig:
+            return {"replayed": 0, "steps": 0, "distinct": 0, "samples": [], "traces": [], "extra": {}, "mismatches": [
+                {"class": "crash:%s:%s" % (name, sig), "what": "the %s harness process dies while tearing down an attempt: %s" % (name, m.group(1)),
+                 "got": e2.log[-3000:], "walk": -1, "step": -1}]}
+        raise e2
+    raise MachineryError("the %s harness crashed once (%s) and not again (inconclusive)" % (name, sig))
 
 
 MANIFEST = {
     "technique": "TLA+ lifecycle model (attempt stages x Fail(stage, kind) x Close interleavings, invariants Released / SwarmClosed) model-checked with TLC; systematic fault enumeration on the real upgrader / TCP dial path / Swarm / BasicHost with real resource managers over in-memory raw connections under testing/synctest; every run's observable ledger validated by TLC against the observable-level spec C04_Obs whose guards are the statement's clauses",
     "category": "fault_enumeration",
-    "text": "",
-    "note": "",
+    "text": "A leak on one early return shows only when a failure lands exactly there: the check re-runs a connection attempt once for every I/O operation index of a fault-free dry run x {read/write error, path cut (EOF), stall until the deadline, context cancel / listener Close, conn Close} x end x {Noise, TLS} x {early muxer, multistream} x {PSK, none}, plus every gater hook rejecting, the real resource manager refusing at OpenConnection / SetPeer / the muxer's span / OpenStream / SetProtocol / SetService / ReserveMemory, nil peer, forced private network, accept-queue timeout and threshold scenarios, the TCP transport's dial exits, seeded swarm operation sequences and BasicHost.NewStream stages, and audits after each one: Stat() of system, transient and every other scope back to zero, Close observed on the raw connection of every ended attempt, no goroutine left in the bubble, nothing left after Swarm/Host.Close. The TLA+ lifecycle model states per exit what the code releases and TLC checks Released / SwarmClosed / Drained for every Fail placement and Close interleaving; every model exit must be taken by at least one fault run.",
+    "note": "Trusted: synctest quiescence, the in-memory pipe, the ledger recorder; Stat() is the resource manager's own accounting (C03 checks it). Established-connection faults are resolved by the owner closing the connection. Four genuine findings on the unchanged tree are listed in known_findings.d/C04.json.",
     "engines": [{"name": "C04_Lifecycle", "path": "spec/C04_Lifecycle.tla", "serves_properties": ["C04"],
                  "kind_free_text": "TLA+ spec + TLC exhaustive + fault enumeration on the real code + trace validation against C04_Obs.tla"}],
 }
